@@ -14,12 +14,21 @@
        modelled in `MdModel.Process` with CHECKED operations exactly as the code is now, for ALL
        inputs (hypotheses only where the code relies on an invariant established elsewhere; each
        is named and has a non-vacuity `example`);
+   (2b) the whole crashing-instruction analysis (op_analysis.rs) over an ABSTRACT decoded
+       instruction (`MdModel.OpAnalysis`): no panic inside the decoder's `Shape`, `Shape` is exact,
+       every reported access is the documented function of the operands, the register set;
+   (2c) the whole x86 argument recovery (arg_recovery.rs) at byte level (`MdModel.ArgRecovery`):
+       no panic on valid-UTF-8 names and u32 stack pointers; termination by construction;
+   (2d) the remaining small sites (STACK WIN evaluator = C07's theorem, time stamp, stat counters);
    (3) `render_total`: the printers' own arithmetic is total on every state satisfying the reader
        and frame invariants, and the frame invariants are discharged for every stack the walk
        model returns (`render_walk_frames_total`, on top of C05/C08).
-  What they cannot carry (SAMPLED by engine `process`, see propcfg/C03.json): panics inside code
-  that is not modelled (yaxpeax-x86, procfs-core, serde_json, encoding_rs, time, debugid, the
-  `format!`/`write!` machinery), real time and memory budgets, and the glue between the kernels.
+  What they cannot carry (SAMPLED / MEASURED by engine `process`, see propcfg/C03.json): that the
+  yaxpeax-x86 decoder only produces instructions inside `Shape` (systematic sweep), panics inside
+  code that is not modelled (yaxpeax-x86, procfs-core, serde_json, encoding_rs, time, debugid, the
+  `format!`/`write!` machinery), real time (wall-clock budget) and memory (counting allocator
+  against an explicit budget affine in dump length + symbol bytes + frames — by (1) affine in
+  the input size), and the glue between the kernels.
 -/
 import MdProofs.C05
 import MdProofs.C07
